@@ -211,6 +211,10 @@ JudgeEffect(ev, pre, post, i) ==
                                   changed |-> ~same], i)
         ELSE IF ~same THEN
             Viol("C01", [w |-> "refused-but-changed", op |-> ev.op, why |-> o.why], i)
+        \* the only holders of the UID are members whose deletion the server acknowledged (they
+        \* are still served - C01 reports that): by C06 the UID was free from that moment on
+        ELSE IF o.why = "uid" /\ ev.op = "Put" /\ "gone" \in DOMAIN ev /\ ev.gone THEN
+            Viol("C06", [w |-> "uid-not-reusable-after-acknowledged-delete", op |-> ev.op], i)
         ELSE IF ev.resp.cls \notin o.fail /\ ~(ev.op = "Proppatch" /\ ev.resp.cls = "ok") THEN
             (IF o.why \in {"ifmatch", "ifnonematch"}
                THEN Viol("C03", [w |-> "wrong-failure-status", why |-> o.why,
